@@ -23,7 +23,7 @@ PROPS = {
         "trusted_base": COMMON_TRUST + [
             "redb tables are modelled as sorted lists whose range() is the in-order filter by the bounds; redb itself is not verified",
             "the gossip transport (iroh-gossip) and the network are not modelled: a broadcast is the delivery of an accepted local write to insert_remote_entry, which is what engine/gossip.rs::receive_loop does with an Op::Put; the harness calls the same function with the same arguments",
-            "whole-stack component: 2-3 real docs nodes (live actor loop, engine/gossip.rs, net.rs, router, iroh-gossip, QUIC over loopback) driven through the client API; the runtime decides the schedule, so only the specification is compared there (final states = join of all writes, no foreign entries); convergence is waited for with a time bound (VERIF_C04SYS_SECS, default 20 s, then one forced round of explicit syncs and 3x the bound)",
+            "whole-stack component: 2-3 real docs nodes (live actor loop, engine/gossip.rs, net.rs, router, iroh-gossip, QUIC over loopback) driven through the client API; the runtime decides the schedule, so only the specification is compared there (final states = join of all writes, no foreign entries); convergence is waited for with a time bound (VERIF_C04SYS_SECS, default 30 s, then one forced round of explicit syncs and 4x the bound; on an idle machine every case settles in well under a second)",
             "hooks H1 (per-replica clocks), H2 (reconciliation parameters), H2c (event subscription on a Replica)",
         ],
         "assumptions": [
